@@ -21,6 +21,10 @@ IP_DUMP = [M_IP + "_BaseIpAnonymizer.dump_to_file@v4", M_IP + "_BaseIpAnonymizer
 IP_UNDO = [M_IP + "_BaseIpAnonymizer.deanonymize", M_IP + "_BaseIpAnonymizer._deanonymize_bits"]
 
 from contracts import regex_obl as _ro   # noqa: E402
+# file-level glue every per-line property relies on: one FileAnonymizer per run, every stage once per line with its
+# own configuration, one shared secret lookup
+GLUE_IO = [M_AF + "FileAnonymizer.anonymize_io"]
+GLUE = [M_AF + "FileAnonymizer.__init__", M_AF + "FileAnonymizer.anonymize_io", M_AF + "anonymize_files@impl"]
 from contracts import cli as _cli        # noqa: E402
 
 PROPS = {
@@ -54,14 +58,16 @@ PROPS = {
     "C03": dict(
         level="proof",
         lemmas=IP_LEMMAS,
-        functions=IP_CORE + IP_UNDO,
+        functions=IP_CORE + IP_UNDO + IP_TEXT + GLUE_IO + [M_AF + "anonymize_files@impl"],
         standins=[("rt_ip", "C03")],
         design_ref="7/C03",
         technique="class-invariant proof: WF established by constructors and preserved by every public method; "
                   "results equal spec functions of (salt, options, argument) only (pyvc, z3+cvc5)",
         text="WF (memo[k]==G(k) for every key) is established by the constructors and preserved by anonymize, "
-             "deanonymize and their helpers; every postcondition is phrased over configuration and argument only, so "
-             "induction over request histories follows.",
+             "deanonymize and their helpers; every postcondition, also of the text-level functions "
+             "_anonymize_match / anonymize_ip_addr for both directions, is phrased over configuration and argument "
+             "only, so induction over request histories follows; anonymize_files builds one FileAnonymizer for the "
+             "whole run and anonymize_io hands its two IP anonymizers to the IP stages on every line.",
         note="as C01",
     ),
     "C04": dict(
@@ -97,14 +103,15 @@ PROPS = {
     "C17": dict(
         level="proof",
         lemmas=IP_LEMMAS,
-        functions=IP_CORE + IP_UNDO + IP_TEXT + IP_DUMP,
+        functions=IP_CORE + IP_UNDO + IP_TEXT + IP_DUMP + GLUE_IO + [M_AF + "anonymize_files@impl"],
         standins=[("rt_ip", "C17")],
         design_ref="7/C17",
         technique="contract on dump_to_file (loop invariant over the dict enumeration, ghost output stream) + WF "
                   "(memo[k]==G(k)) + coverage postconditions of anonymize/_anonymize_match (pyvc, z3+cvc5)",
-        text="anonymize ensures the full address is a memo key and every method only extends the memo; dump_to_file "
-             "writes, for every full-length key, the line built from the key and its memoised image (= G(key) by WF), "
-             "and adds at most one line per entry.",
+        text="anonymize ensures the full address is a memo key and every method only extends the memo; "
+             "dump_to_file writes, for every full-length key, the line built from the key and its memoised image "
+             "(= G(key) by WF), and adds at most one line per entry; anonymize_files dumps the maps of the one "
+             "FileAnonymizer that served every file, after the per-file loop, into the named file only.",
         note="as C01 plus E-dict-iteration, E-ipaddress (str of an address is injective: assumed, not used in the "
              "proof obligations), E-os (write appends to the file only)",
     ),
@@ -113,7 +120,7 @@ PROPS = {
         lemmas=[],
         functions=[M_IP + "_anonymize_match@v4", M_IP + "_anonymize_match@v6",
                    M_IP + "anonymize_ip_addr@v4", M_IP + "anonymize_ip_addr@v6", M_IP + "IpAnonymizer.should_anonymize",
-                   M_IP + "IpAnonymizer._is_mask"],
+                   M_IP + "IpAnonymizer._is_mask"] + GLUE_IO,
         generators=[_ro.gen_ipv4, _ro.gen_ipv6],
         standins=[("rt_text", "C06")],
         design_ref="7/C06",
@@ -134,13 +141,15 @@ PROPS = {
         functions=[M_SI + "AsNumberAnonymizer._generate_as_number_replacement",
                    M_SI + "AsNumberAnonymizer.__init__",
                    M_SI + "AsNumberAnonymizer.anonymize",
-                   M_SI + "anonymize_as_numbers"],
+                   M_SI + "anonymize_as_numbers"] + GLUE_IO,
         generators=[_ro.gen_as_regex],
         standins=[("rt_text", "C11")],
         design_ref="7/C11",
         technique="deductive verification of _generate_as_number_replacement against the four block limits of the "
-                  "statement (linear integer arithmetic, md5 uninterpreted) + regular-language obligations on the real "
-                  "regex template (digit-pinned context)",
+                  "statement (linear integer arithmetic, md5 uninterpreted), of AsNumberAnonymizer.__init__/anonymize "
+                  "and anonymize_as_numbers (re.sub with a callable as an invariant loop: each match is a listed number "
+                  "and is replaced by its own replacement, once), the pipeline trace of anonymize_io + regular-language "
+                  "obligations on the real regex template (digit-pinned context)",
         text="For every digit string up to 4294967295 and every hash value the replacement lies in the same block and "
              "is a function of salt and number; ValueError exactly above the range; the regex template matches exactly "
              "maximal digit runs equal to a listed number.",
@@ -171,27 +180,32 @@ PROPS = {
         level="other",
         lemmas=[],
         functions=[M_SI + "_anonymize_value", M_SI + "_check_sensitive_item_format", M_SI + "_extract_enclosing_text",
-                   M_SI + "replace_matching_item"],
+                   M_SI + "replace_matching_item"] + GLUE_IO,
         standins=[("rt_files", "C07")],
         design_ref="7/C07",
-        technique="contracts on _anonymize_value/_check_sensitive_item_format/_extract_enclosing_text discharged by the "
-                  "pyvc VC generator (z3+cvc5); which token each of the 55 line regexes captures is checked bounded",
+        technique="contracts on "
+                  "_anonymize_value/_check_sensitive_item_format/_extract_enclosing_text/replace_matching_item and the "
+                  "pipeline trace of anonymize_io discharged by the pyvc VC generator (z3+cvc5); which token each of "
+                  "the 55 line regexes captures is checked bounded",
         text="Proved for all inputs: the replacement is head + pseudonym + tail where the pseudonym is the stored one or "
              "built from the lookup size and the format class (a function of FmtSpec(val), never of val's characters "
              "beyond its class and md5 salt length), the lookup only grows by one entry, reserved/empty values are "
              "returned as written.  NOT decidable here: capture-group extents of the backtracking line regexes (which "
              "token is the secret) - bounded over 25 line forms x 7 classes; known finding: an all-digit secret after "
              "'password' is taken for the optional type digit.",
-        note="E-passlib, E-b2a_hex, E-resub, trusted contracts on juniper_decrypt / juniper_nonrandom_encrypt (C18)",
+        note="E-passlib, E-b2a_hex, E-resub, trusted contracts on juniper_decrypt / the round-trip clauses of "
+             "juniper_nonrandom_encrypt (C18)",
     ),
     "C08": dict(
         level="other",
         lemmas=[],
-        functions=[M_SI + "_anonymize_value", M_SI + "_extract_enclosing_text", M_SI + "replace_matching_item"],
+        functions=[M_SI + "_anonymize_value", M_SI + "_extract_enclosing_text", M_SI + "replace_matching_item"] + GLUE,
         standins=[("rt_files", "C08")],
         design_ref="7/C08",
-        technique="lookup contract of _anonymize_value (hit returns the stored replacement, entries never change, "
-                  "one new entry per new secret) and fix-point contract of _extract_enclosing_text, discharged by pyvc; "
+        technique="lookup contract of _anonymize_value (hit returns the stored replacement, entries never change, one "
+                  "new entry per new secret), fix-point contract of _extract_enclosing_text, replace_matching_item, and "
+                  "the file-level glue (FileAnonymizer.__init__ creates the one lookup, anonymize_io hands it to the "
+                  "secrets stage on every line, anonymize_files builds one FileAnonymizer per run), discharged by pyvc; "
                   "injectivity of the hash renderings assumed",
         text="Equal keys give equal replacements for every history of the lookup (invariant: entries are never removed "
              "or changed); the key is the value with all enclosing text stripped (Stripped is proved for the returned "
@@ -204,7 +218,8 @@ PROPS = {
     "C09": dict(
         level="other",
         lemmas=[],
-        functions=[M_SI + "_check_sensitive_item_format", M_SI + "_anonymize_value", M_SI + "_extract_enclosing_text"],
+        functions=[M_SI + "_check_sensitive_item_format", M_SI + "_anonymize_value", M_SI + "_extract_enclosing_text",
+                   M_SI + "replace_matching_item"] + GLUE_IO,
         standins=[("rt_files", "C09")],
         design_ref="7/C09",
         technique="_check_sensitive_item_format proved equal to the class function of the statement (regular-language "
@@ -221,21 +236,24 @@ PROPS = {
         level="other",
         lemmas=[],
         functions=[M_NC + "main", M_NC + "host_bits"],
-        generators=[_cli.gen_parse_args_decl],
+        generators=[_cli.gen_parse_args_decl, _cli.gen_facade_covers_impl],
         standins=[("rt_files", "C19")],
         design_ref="7/C19",
         technique="deductive verification of main (parsed options symbolic, ghost record of the call to "
                   "anonymize_files) and host_bits with pyvc; declarative obligations on the add_argument calls; "
                   "config-file precedence is behaviour of configargparse (bounded run only)",
-        text="Proved for every option record: ValueError exactly for the contradictory/unusable combinations and before "
-             "anonymize_files (the only writer) is called; with no anonymization option it is not called; otherwise "
+        text="Proved for every option record: a contradictory/unusable combination raises ValueError before "
+             "anonymize_files (the only writer) is called, and no such combination returns normally; any other "
+             "failure comes out of anonymize_files; with no anonymization option it is not called; otherwise "
              "called exactly once with input/output/flags/salt/dump file bound to the documented sources, the same "
              "host-bit count for both families, and the three RFC 1918 networks as preserved addresses iff "
-             "--preserve-private-addresses; host_bits accepts exactly 0..32; defaults 8 / class+private prefixes are "
-             "what add_argument declares.  NOT applicable to contracts on netconan code: command line vs config "
-             "file precedence (configargparse) - bounded over 4 equivalences and 3 rejected config-file combinations.",
-        note="E-argparse (trusted contract on _parse_args: one record per dest), trusted contract on anonymize_files "
-             "as seen from main; int(str) modelled on the plain-digit domain",
+             "--preserve-private-addresses; host_bits accepts exactly 0..32; defaults 8 / class+private prefixes "
+             "are what add_argument declares.  NOT applicable to contracts on netconan code: command line vs "
+             "config file precedence (configargparse) - bounded over 4 equivalences and 3 rejected config-file "
+             "combinations.",
+        note="E-argparse (trusted contract on _parse_args: one record per dest); main sees anonymize_files through "
+             "a facade contract that is mechanically checked to be covered by the verified anonymize_files@impl; "
+             "int(str) modelled on the plain-digit domain",
     ),
     "C10": dict(
         level="other",
@@ -245,19 +263,23 @@ PROPS = {
                    M_SI + "SensitiveWordAnonymizer._generate_conflicting_reserved_word_list",
                    M_SI + "SensitiveWordAnonymizer._generate_sensitive_word_regex",
                    M_SI + "SensitiveWordAnonymizer._get_or_generate_sensitive_word_replacement",
-                   M_SI + "SensitiveWordAnonymizer.anonymize"],
+                   M_SI + "SensitiveWordAnonymizer.anonymize"] + GLUE_IO,
         standins=[("rt_files", "C10")],
         design_ref="7/C10",
-        technique="contract on FileAnonymizer.__init__ (the word stage receives built-in + user reserved words, the "
-                  "user's words are in the per-instance set, no global set is written) and the reserved-word clause of "
-                  "_anonymize_value, discharged by pyvc; 'no listed word survives' depends on re.sub scanning and is "
-                  "checked bounded",
-        text="Proved: the reserved set handed to the word anonymizer and to secret anonymization is exactly built-in "
-             "plus user words; a secret value that is a reserved word is returned as written.  NOT proved: that no "
-             "listed word survives in any letter case (alternation order, re.sub scanning, IGNORECASE) and the "
-             "conflicting-word computation of SensitiveWordAnonymizer (trusted constructor contract) - bounded over 5 "
-             "word lists x 3 reserved sets x hash seeds.",
-        note="E-resub; trusted contract on SensitiveWordAnonymizer.__init__/anonymize (not verified)",
+        technique="contracts on FileAnonymizer.__init__ (the word stage receives built-in + user reserved words, the "
+                  "user's words are in the per-instance set, no global set is written), on the reserved-word clause of "
+                  "_anonymize_value, on the word anonymizer (memo of replacements, conflicting reserved words, "
+                  "deterministic regex construction, anonymize as a re.sub loop) and the pipeline trace of anonymize_io "
+                  "(the word stage runs exactly once on every line), discharged by pyvc; what the compiled alternation "
+                  "matches depends on re scanning and is checked bounded",
+        text="Proved: the reserved set handed to the word anonymizer and to secret anonymization is exactly "
+             "built-in plus user words; a secret value that is a reserved word is returned as written; every match "
+             "of the word regex is replaced by the memoised pseudonym, a function of salt and lower-cased match "
+             "only; the alternation is built from the sorted, escaped words (longest first) independent of set "
+             "order; the stage is applied to every line whatever the secrets stage did to it.  NOT proved: that "
+             "the compiled alternation finds every occurrence in any letter case (re scanning, IGNORECASE) - "
+             "bounded over 5 word lists x 3 reserved sets x hash seeds and 8 lines mixing words with secrets.",
+        note="E-resub (matching of the compiled alternation is opaque); E-md5",
     ),
     "C12": dict(
         level="other",
@@ -269,12 +291,14 @@ PROPS = {
         technique="loop invariant + ghost call trace on anonymize_io (one write per input line, in order, each the "
                   "result of the stage chain applied to that line), contracts on _split_line and "
                   "_extract_enclosing_text (outer whitespace and enclosing text conserved), discharged by pyvc",
-        text="Proved: anonymize_io writes exactly one line per line read, in order, and what it writes for a line is "
-             "the chain of the enabled stages applied to that line only; _split_line returns the leading/trailing "
-             "whitespace of the line and _extract_enclosing_text conserves head+value+tail.  NOT proved: that each "
-             "stage carries non-sensitive tokens verbatim (regex capture extents; trusted stage contracts) - bounded "
-             "over 15 feature subsets x 5 texts.",
-        note="trusted contracts on replace_matching_item, SensitiveWordAnonymizer.anonymize, anonymize_as_numbers; E-strws; E-os (readlines)",
+        text="Proved: anonymize_io writes exactly one line per line read, in order, and what it writes for a line "
+             "is the chain of the enabled stages applied to that line only; _split_line returns the "
+             "leading/trailing whitespace of the line and _extract_enclosing_text conserves head+value+tail; "
+             "replace_matching_item inserts literal text (function replacement) around the anonymized value; the "
+             "word stage only substitutes matches.  NOT proved: which tokens the line regexes capture (regex "
+             "capture extents) - bounded over 15 feature subsets x 5 texts and 11 tokens with backslash/template "
+             "characters x 5 secret line forms.",
+        note="E-resub, E-strws; E-os (readlines)",
     ),
     "C13": dict(
         level="other",
@@ -290,12 +314,12 @@ PROPS = {
         technique="determinism and frame obligations of pyvc on every function under contract: nondeterministic "
                   "sources (random.choice, library-generated salts) are havoc'd symbols that must not reach results or "
                   "post-state; writes to module-level containers and to caller-owned lists are frame violations",
-        text="Proved: no result or post-state of the functions under contract depends on a havoc'd source except the "
-             "generated salt when none is supplied (which is logged at WARNING and used by every stage); no "
-             "module-level container is written; the caller's option lists are not modified.  Hash-seed dependence of "
-             "set iteration inside the trusted word-regex construction is checked bounded (subprocesses with "
-             "different PYTHONHASHSEED).",
-        note="purity of hashlib/passlib/ipaddress is assumed; trusted contracts as listed under C10/C12",
+        text="Proved: no result or post-state of the functions under contract depends on a havoc'd source except "
+             "the generated salt when none is supplied (which is logged at WARNING and used by every stage); no "
+             "module-level container is written; the caller's option lists are not modified; the word regex is "
+             "built from a sorted sequence, so set iteration order (an arbitrary enumeration in the model) cannot "
+             "reach it.  Also checked bounded in subprocesses with different PYTHONHASHSEED.",
+        note="purity of hashlib/passlib/ipaddress is assumed",
     ),
     "C14": dict(
         level="other",
@@ -315,11 +339,12 @@ PROPS = {
         technique="exception-freedom obligations of pyvc (every indexing, dict lookup, int(), chr(), library "
                   "precondition and call-site precondition; termination measures) on the functions in reach, for any "
                   "line, any salt string and valid options",
-        text="Proved: no operation of the listed functions can raise for any input (text the address parser rejects "
-             "is returned unchanged; md5 salt capped at 8; any salt string for $9$; bidict value uniqueness; "
-             "terminating loops/recursion).  Out of reach: exceptions inside the 55 line regexes' re.search/sub on "
-             "opaque patterns, inside replace_matching_item and the word anonymizer (trusted contracts) and inside "
-             "library code under its assumed preconditions - bounded over 7 salts x 5 feature sets x hostile lines.",
+        text="Proved: no operation of the listed functions can raise for any input (text the address parser "
+             "rejects is returned unchanged; md5 salt capped at 8; any salt string for $9$; bidict value "
+             "uniqueness; terminating loops/recursion; replace_matching_item and the word anonymizer included).  "
+             "Out of reach: exceptions inside re.search/sub on the opaque line patterns, juniper_decrypt (trusted "
+             "contract: ValueError only) and library code under its assumed preconditions - bounded over 7 salts x "
+             "5 feature sets x hostile lines.",
         note="E-passlib/E-ipaddress/E-bidict preconditions as stated; lone surrogates excluded",
     ),
     "C15": dict(
@@ -342,6 +367,7 @@ PROPS = {
         level="other",
         lemmas=[],
         functions=[M_AF + "FileAnonymizer.anonymize_io", M_AF + "anonymize_files@impl", M_NC + "main"],
+        generators=[_cli.gen_facade_covers_impl],
         standins=[("rt_files", "C16")],
         design_ref="7/C16",
         technique="contracts on anonymize_io (reading fails before any state change or write: exceptional "
